@@ -30,7 +30,7 @@ def run(ctx):
         jobrules.timer_summaries(ctx, "R07.7")
     except Skip:
         pass
-    for fn in (jobrules.wake_protocol, jobrules.multi_waiter, jobrules.ticket_shape):
+    for fn in (jobrules.wake_protocol, jobrules.multi_waiter, jobrules.ticket_shape, lambda c: jobrules.signal_child_rule(c, "R07.7"), lambda c: jobrules.callbox_table(c, "R07.7")):
         try:
             fn(ctx)
         except Skip:
